@@ -120,6 +120,8 @@ struct ConnPlan
 struct Plan
 {
   bool defaultHandler = false;
+  int restartAfter = 0;       // > 0: that many connections are served first, then stop() + start() on the SAME server object
+  bool upgradeSubclass = false; // the server is a subclass that accepts 'Upgrade: x-test' (onUpgradeRequest -> markSessionUpgraded)
   std::vector<ConnPlan> conns;
 };
 
@@ -221,6 +223,7 @@ struct Runner
   std::unordered_map<std::string, const Item *> itemByTok;
   std::vector<ConnResult> results;
   std::uint16_t port = 0;
+  std::string preRestartProblem;
 
   explicit Runner(const Plan &p) : plan(p) {}
 
@@ -421,7 +424,27 @@ struct Runner
         }
       table.byTok["S" + std::to_string(ci)] = Behaviour{SetContent, 200, 3, 0};
     }
-    HttpServer srv("127.0.0.1", 0);
+    // a subclass using the documented upgrade seam: accepts 'Upgrade: x-test', swallows upgraded data
+    struct UpgServer : HttpServer
+    {
+      using HttpServer::HttpServer;
+      bool onUpgradeRequest(iora::network::SessionId sid, const Request &req, Response &res) override
+      {
+        if (req.get_header_value("Upgrade") != "x-test") return false;
+        res.status = 101;
+        res.headers.clear();
+        res.body.clear();
+        res.set_header("Upgrade", "x-test");
+        res.set_header("Connection", "Upgrade");
+        markSessionUpgraded(sid);
+        return true;
+      }
+      void onUpgradedData(iora::network::SessionId, const std::uint8_t *, std::size_t) override {}
+    };
+    std::unique_ptr<HttpServer> srvPtr;
+    if (plan.upgradeSubclass) srvPtr.reset(new UpgServer("127.0.0.1", 0));
+    else srvPtr.reset(new HttpServer("127.0.0.1", 0));
+    HttpServer &srv = *srvPtr;
     Table *t = &table;
     auto h = [t](const HttpServer::Request &rq, HttpServer::Response &rs) { genericHandler(t, rq, rs); };
     srv.onGet("/e/a", h);
@@ -437,25 +460,80 @@ struct Runner
     srv.onPost("/w/*", h);
     srv.onPatch("/w/*", h);
     if (plan.defaultHandler) srv.setDefaultHandler(h);
-    auto before = listeningSockets();
-    srv.start();
     // HttpServer has no getter for the port it bound with port 0: take the listening socket that
     // appeared with start()
-    std::vector<std::pair<int, std::uint16_t>> fresh;
-    for (auto &l : listeningSockets())
+    auto startAndFindPort = [&]() -> bool
     {
-      bool old = false;
-      for (auto &b : before)
-        if (b.first == l.first && b.second == l.second) old = true;
-      if (!old) fresh.push_back(l);
-    }
-    if (fresh.size() != 1)
+      auto before = listeningSockets();
+      srv.start();
+      std::vector<std::pair<int, std::uint16_t>> fresh;
+      for (auto &l : listeningSockets())
+      {
+        bool old = false;
+        for (auto &b : before)
+          if (b.first == l.first && b.second == l.second) old = true;
+        if (!old) fresh.push_back(l);
+      }
+      if (fresh.size() != 1)
+      {
+        c.inconclusive("could not identify the server's listening socket");
+        srv.stop();
+        return false;
+      }
+      port = fresh[0].second;
+      return true;
+    };
+    if (!startAndFindPort()) return false;
+    if (plan.restartAfter > 0)
     {
-      c.inconclusive("could not identify the server's listening socket");
+      // first life of the server object: a few connections (upgrading, if the subclass can) that
+      // are answered and go away; then the SAME object is stopped and started again
+      table.byTok["pre"] = Behaviour{SetContent, 200, 3, 0};
+      for (int k = 0; k < plan.restartAfter; ++k)
+      {
+        int fd = tcpConnect(port);
+        if (fd < 0)
+        {
+          c.inconclusive("could not connect before the restart");
+          srv.stop();
+          return false;
+        }
+        std::string rq = "GET /e/a HTTP/1.1\r\nHost: c16.test\r\nX-Tok: pre\r\n";
+        if (plan.upgradeSubclass) rq += "Connection: Upgrade\r\nUpgrade: x-test\r\n";
+        rq += "\r\n";
+        sendAll(fd, rq.data(), rq.size());
+        std::string in;
+        auto t0 = Clock::now();
+        const char *want = plan.upgradeSubclass ? "HTTP/1.1 101 " : "HTTP/1.1 200 ";
+        bool answered = false;
+        while (msSince(t0) < kBurstWaitMs)
+        {
+          RecvStatus st = recvSome(fd, in, 200);
+          if (in.find("\r\n\r\n") != std::string::npos)
+          {
+            answered = in.compare(0, 13, want) == 0;
+            break;
+          }
+          if (st == RecvStatus::Eof || st == RecvStatus::Reset) break;
+        }
+        if (plan.upgradeSubclass && answered)
+        {
+          const char junk[] = "\x81\x05hello"; // upgraded-protocol octets: swallowed by the subclass
+          sendAll(fd, junk, sizeof junk - 1);
+          std::this_thread::sleep_for(std::chrono::milliseconds(2));
+        }
+        ::close(fd);
+        if (!answered)
+        {
+          preRestartProblem = pbt::Fmt() << "connection " << k << " before the restart: expected '" << want << "...', got "
+                                         << pbt::show(in, 80);
+          break;
+        }
+      }
+      std::this_thread::sleep_for(std::chrono::milliseconds(20)); // let the server see the disconnects
       srv.stop();
-      return false;
+      if (!startAndFindPort()) return false;
     }
-    port = fresh[0].second;
     std::vector<std::thread> th;
     for (std::size_t ci = 0; ci < plan.conns.size(); ++ci) th.emplace_back([this, ci] { runConn(ci); });
     for (auto &x : th) x.join();
@@ -828,6 +906,7 @@ std::string describePlan(const Plan &p)
 {
   pbt::Fmt f;
   f << "default-handler=" << (p.defaultHandler ? "yes" : "no");
+  if (p.restartAfter) f << " restart-after=" << p.restartAfter << (p.upgradeSubclass ? " upgrading connections (subclass accepts Upgrade: x-test)" : " plain connections");
   for (std::size_t ci = 0; ci < p.conns.size(); ++ci)
   {
     const ConnPlan &cp = p.conns[ci];
@@ -856,6 +935,7 @@ struct ReqSpec
   bool hasBody = false;
   bool chunked = false;
   int headerCase = 0;
+  int upgrade = 0; // 0 none; 1 h2c (curl --http2 style); 2 websocket; 3 unknown token, no Connection header; 4 TLS/1.2, lower-case
 };
 
 std::string casey(const std::string &name, int mode)
@@ -877,6 +957,15 @@ std::string renderRequest(const ReqSpec &s, const std::string &tok)
   {
     static const char *sp[] = {"close", "Close", "CLOSE"};
     w += casey("Connection", s.headerCase) + ": " + sp[s.closeSpelling % 3] + "\r\n";
+  }
+  // an upgrade offer that a plain HttpServer does not accept: the request is answered as usual
+  switch (s.close ? (s.upgrade ? 3 : 0) : s.upgrade) // (a closing request keeps its own Connection field)
+  {
+  case 1: w += "Connection: Upgrade, HTTP2-Settings\r\nUpgrade: h2c\r\nHTTP2-Settings: AAMAAABkAARAAAAAAAIAAAAA\r\n"; break;
+  case 2: w += "Connection: Upgrade\r\nUpgrade: websocket\r\nSec-WebSocket-Key: dGhlIHNhbXBsZSBub25jZQ==\r\nSec-WebSocket-Version: 13\r\n"; break;
+  case 3: w += "Upgrade: x-unknown/1.0\r\n"; break;
+  case 4: w += "connection: upgrade\r\nupgrade: TLS/1.2\r\n"; break;
+  default: break;
   }
   if (s.chunked)
   {
@@ -954,7 +1043,8 @@ Item handlerItem(const std::string &tok, const ReqSpec &rs, const Behaviour &b)
   }
   it.wire = renderRequest(rs, tok);
   it.desc = pbt::Fmt() << tok << " " << rs.method << " " << rs.path << (rs.version == "HTTP/1.0" ? " 1.0" : "")
-                       << (rs.chunked ? " chunked" : "") << (rs.hasBody ? " body=" + std::to_string(rs.body.size()) : std::string())
+                       << (rs.chunked ? " chunked" : "") << (rs.upgrade ? " Upgrade#" + std::to_string(rs.upgrade) : std::string())
+                       << (rs.hasBody ? " body=" + std::to_string(rs.body.size()) : std::string())
                        << " -> " << modeName(b.mode) << " " << b.status << " " << b.bodySize << "B " << b.durMs << "ms";
   return it;
 }
@@ -967,7 +1057,7 @@ Item anonItem(const std::string &tok, const ReqSpec &rs, const std::string &why)
   it.isHead = rs.method == "HEAD";
   it.closes = rs.close;
   it.wire = renderRequest(rs, tok);
-  it.desc = tok + " " + rs.method + " " + rs.path + " (" + why + ")";
+  it.desc = tok + " " + rs.method + " " + rs.path + (rs.upgrade ? " Upgrade#" + std::to_string(rs.upgrade) : std::string()) + " (" + why + ")";
   return it;
 }
 
@@ -1048,6 +1138,7 @@ void labelAndRun(const Plan &plan, pbt::Case &c)
   pbt::watchdog(120, "C16/case-hang");
   Runner run(plan);
   if (!run.run(c)) return;
+  if (!run.preRestartProblem.empty()) c.fail("C16/pre-restart-exchange", run.preRestartProblem);
   // every connection is judged; a known-finding verdict on one connection must not hide a
   // different failure on another (Case::fail keeps the first non-known failure)
   for (std::size_t ci = 0; ci < plan.conns.size(); ++ci)
@@ -1073,6 +1164,13 @@ PBT_PROPERTY(serve)
   Plan plan;
   plan.defaultHandler = src.coin();
   int nConn = static_cast<int>(src.sized(1, 4));
+  if (src.coin(1, 4))
+  {
+    // restart dimension: the same server object serves 1-3 connections, is stopped and started again
+    plan.restartAfter = static_cast<int>(src.range(1, 3));
+    plan.upgradeSubclass = src.coin(2, 3);
+    c.label(plan.upgradeSubclass ? "restart after upgraded sessions" : "restart after plain sessions");
+  }
   bool ntPipeline = false, ntBigClose = false;
   int tokSeq = 0;
   for (int ci = 0; ci < nConn; ++ci)
@@ -1133,6 +1231,7 @@ PBT_PROPERTY(serve)
       rs.closeSpelling = (flags >> 5) & 3;
       rs.headerCase = ((flags >> 7) & 7) < 3 ? ((flags >> 7) & 7) : 0;
       bool http10 = ((flags >> 10) & 15) == 0;
+      if (((flags >> 15) & 31) < 4) rs.upgrade = 1 + ((flags >> 15) & 3); // 12.5 %: an Upgrade offer the server declines
       if (http10)
       {
         rs.version = "HTTP/1.0";
@@ -1276,6 +1375,7 @@ PBT_PROPERTY(serve)
         if (it.kind == Kind::Handler || b.mode == ThrowBeforeEcho) c.label(std::string("handler mode: ") + modeName(b.mode));
         if (it.isHead) c.label("HEAD request");
         if (http10) c.label("HTTP/1.0 request");
+        if (rs.upgrade) c.label("request with a declined Upgrade offer");
         if (rs.chunked) c.label("chunked request");
         if (it.closes) c.label("Connection: close request");
         std::size_t wireEstimate = it.isHead ? 0 : (it.checkBody ? it.expectBody.size() : 0);
@@ -1408,6 +1508,55 @@ PBT_REGRESSION(chunk_size_overflow)
     cp.items.push_back(unparseableItem(sub, "ov" + std::to_string(sub)));
     p.conns.push_back(cp);
   }
+  labelAndRun(p, c);
+}
+
+// a well-formed request with an Upgrade offer the server does not accept is routed and answered
+// like any other (seeded change C16-I)
+PBT_REGRESSION(declined_upgrade_is_answered)
+{
+  Plan p;
+  ConnPlan cp;
+  for (int u = 1; u <= 4; ++u)
+  {
+    ReqSpec rs;
+    rs.upgrade = u;
+    rs.path = u % 2 ? "/e/a" : "/w/up/grade";
+    cp.items.push_back(handlerItem("u" + std::to_string(u), rs, beh(SetContent, 200, 20, 0)));
+  }
+  ReqSpec post;
+  post.method = "POST";
+  post.hasBody = true;
+  post.body = "abc";
+  post.upgrade = 1;
+  cp.items.push_back(handlerItem("u5", post, beh(SetContent, 201, 7, 0)));
+  p.conns.push_back(cp);
+  labelAndRun(p, c);
+}
+
+// sessions that were upgraded (documented seam) and closed must not leave a mark that hits the
+// sessions of the next life of the same server object (seeded change C16-J)
+PBT_REGRESSION(restart_after_upgraded_sessions)
+{
+  Plan p;
+  p.restartAfter = 2;
+  p.upgradeSubclass = true;
+  for (int k = 0; k < 3; ++k)
+  {
+    ConnPlan cp;
+    cp.items.push_back(get("r" + std::to_string(k), "/e/a", beh(SetContent, 200, 9, 0)));
+    p.conns.push_back(cp);
+  }
+  labelAndRun(p, c);
+}
+PBT_REGRESSION(restart_after_plain_sessions)
+{
+  Plan p;
+  p.restartAfter = 2;
+  ConnPlan cp;
+  cp.items.push_back(get("x", "/e/a", beh(SetContent, 200, 9, 0)));
+  cp.items.push_back(get("y", "/n/1/x", beh(ThrowStd, 200, 0, 0)));
+  p.conns.push_back(cp);
   labelAndRun(p, c);
 }
 
